@@ -149,10 +149,7 @@ func ruleAuthGate(r *Run) {
 			for i, ev := range path.Events {
 				if ev.Kind == EvCall && ev.Callee == verifyUser {
 					c := r.P.Canon(gate, ev.Call.Args[0])
-					tokOK = strings.HasPrefix(c, "call:http.GetUserTokenFromHTTPRequest(param:lit@") && strings.HasSuffix(c, ".r)")
-					if !tokOK {
-						tokOK = strings.Contains(c, "GetUserTokenFromHTTPRequest(param:") && strings.HasSuffix(c, "r)")
-					}
+					tokOK = strings.HasPrefix(c, "call:http.GetUserTokenFromHTTPRequest(param:lit@") && strings.HasSuffix(c, ".#1)")
 				}
 				if ev.Kind == EvGuard {
 					g := r.Classify(path, i)
@@ -169,7 +166,7 @@ func ruleAuthGate(r *Run) {
 			case "next":
 				for _, ev := range path.Events {
 					if ev.Kind == EvCall && ev.Call != nil {
-						if se, ok := ast.Unparen(ev.Call.Fun).(*ast.SelectorExpr); ok && se.Sel.Name == "ServeHTTP" && strings.HasPrefix(r.P.Canon(gate, se.X), "param:next") {
+						if se, ok := ast.Unparen(ev.Call.Fun).(*ast.SelectorExpr); ok && se.Sel.Name == "ServeHTTP" && r.P.Canon(gate, se.X) == "param:#1" {
 							accepted = true
 						}
 					}
@@ -388,13 +385,13 @@ func ruleReceiptFlow(r *Run) {
 				if strings.HasPrefix(g.Subject, "boolcall:bytes.Equal") && g.Outcome == "true" {
 					call := ast.Unparen(ev.Cond).(*ast.CallExpr)
 					a, b := r.P.Canon(vf, call.Args[0]), r.P.Canon(vf, call.Args[1])
-					want := "call:crypto.Keccak256Hash(conv:[]byte(param:payload.Receipt)).call:Hash.Bytes()"
-					hashOK = (a == want && b == "param:payload.Hash") || (b == want && a == "param:payload.Hash")
+					want := "call:crypto.Keccak256Hash(conv:[]byte(param:#0.Receipt)).call:Hash.Bytes()"
+					hashOK = (a == want && b == "param:#0.Hash") || (b == want && a == "param:#0.Hash")
 				}
 				if g.Callee == ecrec && g.Outcome == "ok" {
 					for _, pe := range path.Events[:i] {
 						if pe.Kind == EvCall && pe.Callee == ecrec {
-							sigOK = r.P.Canon(vf, pe.Call.Args[0]) == "param:payload.Hash" && r.P.Canon(vf, pe.Call.Args[1]) == "param:payload.Signature"
+							sigOK = r.P.Canon(vf, pe.Call.Args[0]) == "param:#0.Hash" && r.P.Canon(vf, pe.Call.Args[1]) == "param:#0.Signature"
 						}
 					}
 				}
@@ -419,7 +416,7 @@ func ruleReceiptFlow(r *Run) {
 					if f, _ := calleeObj(lf.Info(), v).(*types.Func); f != nil && f.Name() == "PostReceipt" && (post == nil || f == post) {
 						n++
 						c := r.P.Canon(lf, v.Args[1])
-						r.Check("I5", ff.Name+":posts-payload", c == "param:payload", v.Pos(), "the payload posted to the credit service is the one handed in (%s)", c)
+						r.Check("I5", ff.Name+":posts-payload", c == "param:#1", v.Pos(), "the payload posted to the credit service is the one handed in (%s)", c)
 					}
 				case *ast.FuncLit:
 					return lf.Lit != v && false
